@@ -20,8 +20,8 @@ AlphaQuick == <<
   R(3, 2, 6, "ok", "ok", "none", 35)
 >>
 AlphaThorough == AlphaQuick \o << U(6, 7, "ok", "ok", "none", 18), D(3, "ok", "ok", "none") >>
-CoordsQuick    == {<<1, 0>>, <<1, 1>>, <<2, 0>>, <<3, 0>>}
-CoordsThorough == {<<1, 0>>, <<1, 1>>, <<2, 0>>, <<3, 0>>, <<3, 1>>}
+CoordsQuick    == {<<1, 0>>, <<2, 1>>, <<2, 2>>, <<3, 0>>}
+CoordsThorough == {<<1, 0>>, <<1, 1>>, <<2, 1>>, <<2, 2>>, <<3, 0>>}
 
 (* non-trivial: some stored operation would close a cycle (its next commitment was consumed before or is its own) *)
 HasLoop == LET st == ResolveRef(store) IN
